@@ -158,3 +158,129 @@ def rule_split_complete(P):
 
 
 RULES = [rule_dispatch, rule_split_complete]
+
+
+def rule_copy_factory(P):
+    """COPY_factory::build_new picks the implementation per forest pair; each implementation is sound only for the pairs it was written for"""
+    R = RuleResult("dispatch.copy-factory", "COPY_factory::build_new constructs copy_inforest only when source and target are the same forest object, copy_MT only for a multi-terminal source, copy_EV_fast only for EV+/index→EV+ or EV*→EV* of matching range, and copy_EV<EdgeOp_plus|times<T>> only for the source labeling and range its edge operator implements")
+    fs = [f for f in P.fns.values() if f["q"] == M + "COPY_factory::build_new" and f.get("cfg")]
+    if not fs:
+        raise AnalysisBroken("dispatch.copy-factory: COPY_factory::build_new not found")
+    f = fs[0]
+    g = Graph(f)
+    R.functions.add(f["inst"])
+
+    def atoms(pred):
+        return [b for b in g.nodes if b.kind == "branch" and b.cond and len(b.succ) == 2 and pred(re.sub(r"\s+", "", b.cond["text"]))]
+
+    def true_edge(b):
+        return 1 if b.cond.get("neg") else 0
+
+    def needs(n, preds, what):
+        """every path entry→n crosses the true edge of at least one branch matching one of preds"""
+        bs = [b for p_ in preds for b in atoms(p_)]
+        if not bs:
+            return "no test of %s found" % what
+        te = {b.id: true_edge(b) for b in bs}
+        p = g.path(g.entry, lambda k: k.id == n.id, avoid_edge=lambda k, i: k.id in te and i == te[k.id])
+        return None if p is None else "reachable without %s: %s" % (what, show_path(p))
+
+    def excludes(n, preds, what):
+        """no path entry→n crosses the true edge of a branch matching preds"""
+        for p_ in preds:
+            for b in atoms(p_):
+                t = true_edge(b)
+                if n.id in g.reach([s for s, i in b.succ if i == t]) and n.id not in g.reach([s for s, i in b.succ if i != t]):
+                    return "constructed under %s" % what
+        return None
+    case_of = lambda n: next((t for t, arm in _context(g, n) if arm == "case"), None)
+    same = lambda t: t in ("arg==res", "res==arg")
+    is_mt = lambda t: t == "arg->isMultiTerminal()"
+    a_plus = lambda t: t in ("arg->isEVPlus()", "arg->isIndexSet()")
+    a_times = lambda t: t == "arg->isEVTimes()"
+    r_plus = lambda t: t == "res->isEVPlus()"
+    r_times = lambda t: t == "res->isEVTimes()"
+    news = [n for n in g.nodes if n.kind == "new" and n.ev.get("rec", "").startswith("copy_")]
+    for n in sorted(news, key=lambda n: n.line):
+        ty = re.sub(r"\s+", "", n.ev.get("type", "")).replace("classMEDDLY::", "")
+        iid = "build_new: %s" % ty
+        R.paths += 1
+        problems = []
+        if ty == "copy_inforest":
+            problems.append(needs(n, [same], "`arg == res`"))
+        else:
+            problems.append(excludes(n, [same], "`arg == res`"))
+            if ty == "copy_MT":
+                problems.append(needs(n, [is_mt], "`arg->isMultiTerminal()`"))
+            else:
+                problems.append(excludes(n, [is_mt], "a multi-terminal source"))
+                c = case_of(n) or ""
+                if ty == "copy_EV_fast":
+                    problems.append(needs(n, [r_plus, a_times], "an EV+ target or an EV* source"))
+                    problems.append(needs(n, [r_times, a_plus], "an EV* target or an EV+/index source"))
+                    problems.append(needs(n, [r_plus, r_times], "an edge-valued target of the same operation"))
+                    if "INTEGER" not in c and "REAL" not in c:
+                        problems.append("not under a case of the source range type")
+                    if "REAL" in c:
+                        problems.append(needs(n, [lambda t: t == "res->getRangeType()==range_type::REAL"], "a REAL target for a REAL source"))
+                else:
+                    m = re.fullmatch(r"copy_EV<EdgeOp_(plus|times)<(\w+)>>", ty)
+                    if not m:
+                        problems.append("unknown copy class")
+                    else:
+                        problems.append(needs(n, [a_plus] if m.group(1) == "plus" else [a_times], "an %s source" % ("EV+/index" if m.group(1) == "plus" else "EV*")))
+                        problems.append(excludes(n, [a_times] if m.group(1) == "plus" else [a_plus], "the other edge operation"))
+                        want = {"long": "INTEGER", "int": "INTEGER", "float": "REAL", "double": "REAL"}.get(m.group(2))
+                        if not want or want not in c:
+                            problems.append("edge type %s constructed under `%s`" % (m.group(2), c or "no range case"))
+        problems = [x for x in problems if x]
+        if not problems:
+            R.ok(iid, where(f, n.line))
+        else:
+            R.fail(iid, where(f, n.line), Finding(R.rule, f["file"], f["q"], "new:%s@%s" % (ty, case_of(n) or "-"), "%s is %s" % (ty, "; ".join(problems)), n.line))
+    R.require_floor(8, "constructions in COPY_factory::build_new")
+    return R
+
+
+def rule_range_types(P):
+    """operation factories instantiate value-typed templates (compare_mt<eq_mt<long>>, arith_compat<…, mt_plus<float>>, copy_EV<EdgeOp_plus<long>>, …)
+    under a switch on the forest's range / edge type: the scalar type of the instantiation must be the one the case stands for"""
+    R = RuleResult("dispatch.range-types", "in every operation factory, a template instantiated under `case range_type::INTEGER` (edge_type::INT/LONG) uses integer scalar types only, and under REAL (FLOAT/DOUBLE) floating types only")
+    ints, reals = {"int", "long"}, {"float", "double"}
+    seen = set()
+    for f in sorted(P.fns.values(), key=lambda f: (f["file"], f["line"], f["inst"])):
+        if not f.get("cfg") or not (f["q"].endswith("::build_new") or f["q"].endswith("::build")) or (f["file"], f["line"]) in seen:
+            continue
+        seen.add((f["file"], f["line"]))
+        g = Graph(f)
+        flags = {x.ev["var"] for x in g.nodes if x.kind == "ldef" and x.ev.get("rhs") and
+                 all(re.fullmatch(r"\(?\w+->getRangeType\(\)==range_type::REAL\)?", a) for a in re.sub(r"\s+", "", x.ev["rhs"]).strip("()").split("||"))}
+        for k in g.nodes:
+            if k.kind != "new":
+                continue
+            ty = k.ev.get("type", "")
+            sc = set(re.findall(r"\b(int|long|float|double)\b", ty))
+            if not sc:
+                continue
+            rng = set()
+            for t, arm in _context(g, k):
+                if arm == "case" or (arm == "true" and "==" in t):
+                    rng |= {m.group(2) for m in re.finditer(r"(range_type|edge_type)::(\w+)", t)}
+                elif re.fullmatch(r"\w+", t.strip()) and t.strip() in flags:
+                    # a local flag `use_reals = a->getRangeType()==REAL || b->getRangeType()==REAL`: true arm = reals, false arm = not reals
+                    rng.add("REAL" if arm == "true" else "INTEGER")
+            want_int = bool(rng & {"INTEGER", "INT", "LONG"})
+            want_real = bool(rng & {"REAL", "FLOAT", "DOUBLE"})
+            if not (want_int or want_real) or (want_int and want_real):
+                continue
+            R.functions.add(f["inst"])
+            R.paths += 1
+            tyn = re.sub(r"\s+", "", ty).replace("MEDDLY::", "").replace("class", "")
+            iid = "%s: %s under %s" % (base_name(f["q"]).replace(M, "")[:50], tyn[:70], "/".join(sorted(rng)))
+            if (want_int and sc <= ints) or (want_real and sc <= reals):
+                R.ok(iid, where(f, k.line))
+            else:
+                R.fail(iid, where(f, k.line), Finding(R.rule, f["file"], base_name(f["q"]), "new:%s@%s" % (tyn[:60], "/".join(sorted(rng))),
+                       "`%s` is instantiated for a forest whose values are %s: terminals / edge values are then decoded with the wrong scalar type" % (tyn, "integers" if want_int else "reals"), k.line))
+    R.require_floor(70, "typed instantiations in operation factories")
+    return R
